@@ -107,6 +107,8 @@ func (k *c06) RunCase(c *core.Ctx, i int) {
 	writeFile(dir, "target.knut", target)
 	rev := revolut2Statement(r)
 	writeFile(dir, "rev2.csv", rev)
+	many := manyCommodities(r)
+	writeFile(dir, "many.knut", many)
 	type cmdSpec struct {
 		key  string
 		args []string
@@ -123,6 +125,9 @@ func (k *c06) RunCase(c *core.Ctx, i int) {
 		{"weights", []string{"portfolio", "weights", "-v", v, "--to", to, "--months", "--csv", "main.knut"}},
 		{"weights-text", []string{"portfolio", "weights", "-v", v, "--to", to, "--digits", "2", "main.knut"}},
 		{"returns", []string{"portfolio", "returns", "-v", v, "--to", to, "--months", "main.knut"}},
+		{"weights-many-commodities", []string{"portfolio", "weights", "-v", "CHF", "--to", "2020-03-01", "--color=false", "--digits", "14", "many.knut"}},
+		{"returns-many-commodities", []string{"portfolio", "returns", "-v", "CHF", "--to", "2020-03-01", "--weeks", "many.knut"}},
+		{"balance-many-commodities", []string{"balance", "-v", "CHF", "--to", "2020-03-01", "--digits", "8", "--color=false", "many.knut"}},
 		{"infer", []string{"infer", "-t", "main.knut", "target.knut"}},
 		{"register", []string{"register", "--to", to, "main.knut"}},
 		{"import-revolut2-two-currencies", []string{"import", "revolut2", "--account", "Assets:Revolut", "--fee", "Expenses:Fees", "rev2.csv"}},
@@ -184,7 +189,7 @@ func (k *c06) RunCase(c *core.Ctx, i int) {
 		if len(outs) > 1 {
 			c.Violation(core.Witness{Case: i, Key: cs.key,
 				Why:   fmt.Sprintf("%d runs of `knut %s` on identical files produced %d distinct (stdout, exit) results; first under %s, another under %s; first differing line: %s", k.runs, strings.Join(cs.args, " "), len(outs), firstDesc, otherDesc, firstDiff(firstOut, otherOut)),
-				Files: c06Files(files, target, rev),
+				Files: c06Files(files, target, rev+"\x00"+many),
 				Cmd:   knutCmd(c, nil, cs.args...),
 				Extra: map[string]string{"out1.txt": firstOut, "out2.txt": otherOut}})
 			continue
@@ -198,8 +203,36 @@ func (k *c06) RunCase(c *core.Ctx, i int) {
 	}
 }
 
+// manyCommodities builds a journal that holds a dozen commodities whose values
+// are not exactly representable in binary floating point, so that the order of
+// a floating point summation shows in the last digits.
+func manyCommodities(r *rand.Rand) string {
+	var b strings.Builder
+	b.WriteString("2020-01-01 open Assets:Bank\n2020-01-01 open Liabilities:Loan\n2020-01-01 open Equity:Opening\n")
+	n := 8 + r.Intn(8)
+	for i := 0; i < n; i++ {
+		fmt.Fprintf(&b, "2020-01-01 price C%d 0.%d%d3 CHF\n", i, 1+r.Intn(9), 1+r.Intn(9))
+	}
+	b.WriteString("\n")
+	for i := 0; i < n; i++ {
+		acc := "Assets:Bank"
+		if r.Intn(4) == 0 {
+			acc = "Liabilities:Loan"
+		}
+		fmt.Fprintf(&b, "2020-01-0%d \"d\"\nEquity:Opening %s %d.%d C%d\n\n", 2+r.Intn(3), acc, 1+r.Intn(999), 1+r.Intn(99), i)
+	}
+	for i := 0; i < n; i += 2 {
+		fmt.Fprintf(&b, "2020-02-0%d price C%d 0.%d%d7 CHF\n", 1+r.Intn(9), i, 1+r.Intn(9), 1+r.Intn(9))
+	}
+	return b.String()
+}
+
 func c06Files(files map[string][]byte, target, rev string) map[string][]byte {
-	res := map[string][]byte{"target.knut": []byte(target), "rev2.csv": []byte(rev)}
+	parts := strings.SplitN(rev, "\x00", 2)
+	res := map[string][]byte{"target.knut": []byte(target), "rev2.csv": []byte(parts[0])}
+	if len(parts) == 2 {
+		res["many.knut"] = []byte(parts[1])
+	}
 	for k, v := range files {
 		res[k] = v
 	}
